@@ -1,5 +1,7 @@
 import WhVerif.Lemmas.C20
 import WhVerif.Lemmas.C20Files
+import WhVerif.Lemmas.C20Deep
+import WhVerif.Lemmas.C03Write
 /-!
 # C20 — auxiliary reports cover the whole run and agree with the phased VCF
 
@@ -502,5 +504,239 @@ example : (fun r : FState => (r.read, r.gt, r.reco)) (runF ⟨true, true, true, 
 /-- a read whose sample is not a member of the family being written would raise `KeyError` (no row): the hypothesis
 `ReadsOfMembers` of `files_cover_run` is needed -/
 example : readListRowsS (scAssign [] ["mother"] exInst.comps) exInst = [⟨"r3", 0, "mother", 51, 1, 2, 51, 61⟩] := by rfl
+
+/-! ## round 10: `PedReader` at text level, `--use-ped-samples`, the assertions of `find_recombination`, completeness and
+order of the recombination rows, read list ↔ written phase sets -/
+
+/-- **ped_trios_are_complete_lines**: when `PedReader` accepts a text (stream, or file read with universal newlines), its
+entries are exactly the data lines of the file (not starting with `#`, not just a line terminator), in file order, each
+with at least six blank-separated fields, (individual, father, mother) = fields 1–3 with `0` = unknown; and
+`setup_pedigree` keeps exactly the complete entries whose three individuals are samples, in file order. -/
+theorem ped_trios_are_complete_lines (viaPath : Bool) (text : String) (lines : List PedLine) (samples : List String)
+    (h : parsePed viaPath text = .ok lines) :
+    ((dataLines (if viaPath then univNl text.toList else text.toList)).map parseRecord = lines.map Except.ok) ∧
+    (∀ l ∈ dataLines (if viaPath then univNl text.toList else text.toList), 6 ≤ (splitWs l).length) ∧
+    (∀ t, t ∈ keptTrios samples lines ↔
+      (⟨t.child, some t.father, some t.mother⟩ : PedLine) ∈ lines ∧ t.father ∈ samples ∧ t.mother ∈ samples ∧
+        t.child ∈ samples) ∧
+    ((keptTrios samples lines).map (·.child)).Sublist (lines.map (·.child)) := by
+  have hp := (parsePedChars_ok h).1
+  have hmap := parseAll_ok hp
+  refine ⟨hmap, ?_, fun t => mem_keptTrios, keptTrios_children_sublist samples lines⟩
+  intro l hl
+  have : parseRecord l ∈ (dataLines (if viaPath then univNl text.toList else text.toList)).map parseRecord :=
+    List.mem_map.mpr ⟨l, hl, rfl⟩
+  rw [hmap] at this
+  obtain ⟨t, _, ht⟩ := List.mem_map.mp this
+  obtain ⟨f0, ind, pat, mat, f4, f5, rest, hs, _⟩ := parseRecord_ok ht.symm
+  rw [hs]; simp
+
+/-- **ped_duplicate_rejected**: an accepted PED text lists no individual twice; and a text whose data lines all parse but
+which lists an individual twice is rejected with a `ParseError` naming an individual that occurs at least twice. -/
+theorem ped_duplicate_rejected (viaPath : Bool) (text : String) :
+    (∀ lines, parsePed viaPath text = .ok lines → (lines.map (·.child)).Nodup) ∧
+    (∀ trios, parseAll (dataLines (if viaPath then univNl text.toList else text.toList)) = .ok trios →
+      ¬ (trios.map (·.child)).Nodup →
+      ∃ id, parsePed viaPath text = .error (.duplicate id) ∧ 2 ≤ (trios.map (·.child)).count id) := by
+  constructor
+  · intro lines h
+    exact (sanityCheck_ok_iff lines).mp (parsePedChars_ok h).2
+  · intro trios hp hnd
+    cases hs : sanityCheck trios with
+    | ok u => exact absurd ((sanityCheck_ok_iff trios).mp hs) hnd
+    | error e =>
+      obtain ⟨id, he, hc⟩ := sanityCheck_error trios e hs
+      refine ⟨id, ?_, hc⟩
+      unfold parsePed parsePedChars
+      rw [hp]; simp only [hs, he]
+
+/-- **ped_samples_order_is_file_order** (after F111): `samples()` = the individuals mentioned by the complete lines
+(child, father, mother), each once, at the place of its first mention. -/
+theorem ped_samples_order_is_file_order (lines : List PedLine) :
+    pedSamples lines = dedupStr (mentions lines) ∧ (pedSamples lines).Nodup ∧
+    (pedSamples lines).Sublist (mentions lines) ∧ (∀ x, x ∈ pedSamples lines ↔ x ∈ mentions lines) := by
+  rw [pedSamples_eq]
+  exact ⟨rfl, nodup_dedupStr _, dedupStr_sublist _, fun x => mem_dedupStr _ x⟩
+
+/-- **families_from_ped_text**: from the PED *text* to the families the run works through: every family handles only
+relationships that are complete lines of the file, whose father, mother and child are all members of that family; no
+child is handled twice in a family (so the per-child dict of `write_recombination_list` has one vector per trio); the
+families partition the samples. -/
+theorem families_from_ped_text (viaPath : Bool) (text : String) (lines : List PedLine) (samples : List String)
+    (h : parsePed viaPath text = .ok lines) :
+    (∀ F ∈ setupFamilies samples (keptTrios samples lines),
+      F.members.Sublist samples ∧ F.members ≠ [] ∧ (F.trios.map (·.child)).Nodup ∧
+      ∀ t ∈ F.trios, (⟨t.child, some t.father, some t.mother⟩ : PedLine) ∈ lines ∧
+        t.father ∈ F.members ∧ t.mother ∈ F.members ∧ t.child ∈ F.members) ∧
+    (∀ s ∈ samples, ∃ F ∈ setupFamilies samples (keptTrios samples lines), s ∈ F.members ∧
+        ∀ F' ∈ setupFamilies samples (keptTrios samples lines), s ∈ F'.members → F' = F) := by
+  have hnd := (ped_duplicate_rejected viaPath text).1 lines h
+  obtain ⟨hpart, hmem⟩ := families_partition_samples samples (keptTrios samples lines)
+  refine ⟨fun F hF => ?_, hpart⟩
+  obtain ⟨hsub, hne⟩ := hmem F hF
+  have hts := (trios_follow_child samples (keptTrios samples lines)).2 F hF
+  refine ⟨hsub, hne, ?_, ?_⟩
+  · exact List.Nodup.sublist ((hts.map _).trans (keptTrios_children_sublist samples lines)) hnd
+  · intro t ht
+    have htk : t ∈ keptTrios samples lines := hts.subset ht
+    obtain ⟨hl, hf, hm, hc⟩ := mem_keptTrios.mp htk
+    obtain ⟨a, b, c⟩ := trio_members_share_family samples _ t htk F hF ht
+    exact ⟨hl, a hf, b hm, c hc⟩
+
+/-- **use_ped_samples_selection** (`--use-ped-samples`, as coded): the samples to phase are `PedReader.samples()` (file
+order) provided the VCF has them all; otherwise the run stops naming the first one the VCF lacks — it is not an
+intersection. -/
+theorem use_ped_samples_selection (vcf : List String) (lines : List PedLine) :
+    (∀ l, selectSamples vcf [] (some lines) true = .ok l → l = pedSamples lines ∧ ∀ s ∈ l, s ∈ vcf) ∧
+    (∀ s, selectSamples vcf [] (some lines) true = .error s → s ∈ pedSamples lines ∧ s ∉ vcf) := by
+  unfold selectSamples
+  simp only [if_true]
+  constructor
+  · intro l h
+    split at h
+    · cases h
+    · rename_i hn
+      cases h
+      refine ⟨rfl, fun s hs => ?_⟩
+      have := List.find?_eq_none.mp hn s hs
+      simpa using this
+  · intro s h
+    split at h
+    · rename_i s' hs'
+      cases h
+      refine ⟨List.mem_of_find?_eq_some hs', ?_⟩
+      have := List.find?_some hs'
+      simpa using this
+    · cases h
+
+/-- **find_recombination_assert_free**: under what the caller establishes — one transmission value and one cost per
+accessible position (the cost computers return `[0]` for no position), every component key an accessible position, and
+distinct children (`_sanity_check`) — no assertion of `find_recombination` fires in `write_recombination_list`, and the
+rows are those of `recombRows`. -/
+theorem find_recombination_assert_free (i : Inst) (hnd : i.children.Nodup) (h1 : i.tv.length = i.positions.length)
+    (h2 : i.recomb.length = max 1 i.positions.length) (h3 : ∀ pc ∈ i.comps, pc.1 ∈ i.positions) :
+    recombRowsA true i = some (recombRows i) ∧
+    ∀ k, findRecombinationA true (tvOfTrio i.tv k) i.comps i.positions i.recomb =
+      some (findRecombination (tvOfTrio i.tv k) i.comps i.positions i.recomb) := by
+  refine ⟨recombRowsALoop_eq i hnd h1 h2 h3 i.children 0 (by simp), fun k => ?_⟩
+  have := assertsHold_of (tvOfTrio i.tv k) i.comps i.positions i.recomb (by simp [tvOfTrio, h1]) h2 h3
+  simp [findRecombinationA, this]
+
+/-- when the assertions fire: F22's shape (no accessible position, costs `[0]`) with the assertion as it was / as it is;
+a vector of the wrong length; a component key that is not an accessible position; a child named by two trios (its dict
+entry gets two values per position) -/
+example : findRecombinationA false [] [] [] [0] = none ∧ findRecombinationA true [] [] [] [0] = some [] ∧
+    findRecombinationA true [0] [] [] [0] = none ∧ findRecombinationA true [0] [(20, 20)] [10] [0] = none ∧
+    findRecombinationA true [] [] [] [] = none := by decide
+example : recombRowsA true ⟨"c", [], [], [(10, 10)], [10], [0], [5], ["kid", "kid"]⟩ = none ∧
+    recombRowsA true ⟨"c", [], [], [(10, 10)], [10], [0], [5], ["kid", "kid2"]⟩ = some [] := by decide
+example : exInst.children.Nodup ∧ exInst.tv.length = exInst.positions.length ∧
+    exInst.recomb.length = max 1 exInst.positions.length ∧ ∀ pc ∈ exInst.comps, pc.1 ∈ exInst.positions := by decide
+
+/-- **recomb_rows_sorted**: the recombination rows of a (chromosome, family) are the rows of its trios in `trios` order;
+with dict keys as components (distinct positions) the rows of one trio are strictly increasing in `position1` (in
+particular no row is listed twice), and every row has `position1 < position2`. -/
+theorem recomb_rows_sorted (i : Inst) (hk : (i.comps.map (·.1)).Nodup) :
+    recombRows i = i.children.zipIdx.flatMap (fun ck => trioRows i ck.2 ck.1) ∧
+    ∀ k child, (trioRows i k child).Pairwise (fun r s => r.pos1 < s.pos1) ∧ ∀ r ∈ trioRows i k child, r.child = child := by
+  refine ⟨recombRowsFrom_eq i i.children 0, fun k child => ⟨?_, ?_⟩⟩
+  · unfold trioRows
+    rw [List.pairwise_map]
+    exact (findRecombination_strict (tvOfTrio i.tv k) i.comps i.positions i.recomb hk).imp
+      (fun h => by simp only [toRecRow]; omega)
+  · intro r hr
+    obtain ⟨e, _, rfl⟩ := List.mem_map.mp hr
+    rfl
+
+/-- **recomb_rows_complete**: for the `k`-th trio of the family, every change of its transmission value between two
+neighbours `a`, `c` of the sorted member list of a component — from the second member on, as `find_recombination` scans
+(`range(2, len(block))`) — is listed: the row (child, chromosome, a+1, c+1, father/mother haplotype bits before and after,
+cost at `c`) is in the list, and (distinct children, distinct positions) it is the only row of that child starting at `a+1`. -/
+theorem recomb_rows_complete (i : Inst) (hk : (i.comps.map (·.1)).Nodup) (hnd : i.children.Nodup) (k : Nat)
+    (child : String) (hc : i.children[k]? = some child) (b : Nat) (hb : b ∈ blockIds i.comps) (pre suf : List Nat)
+    (a c : Nat) (hbl : (blockOf i.comps b).tail = pre ++ a :: c :: suf)
+    (hne : atPos i.positions (tvOfTrio i.tv k) a ≠ atPos i.positions (tvOfTrio i.tv k) c) :
+    let ta := atPos i.positions (tvOfTrio i.tv k) a
+    let tc := atPos i.positions (tvOfTrio i.tv k) c
+    let row : RecRow := ⟨child, i.chrom, a + 1, c + 1, ta % 2, tc % 2, ta / 2, tc / 2, atPos i.positions i.recomb c⟩
+    row ∈ recombRows i ∧ (row.f1 ≠ row.f2 ∨ row.m1 ≠ row.m2) ∧
+      ∀ r' ∈ recombRows i, r'.child = child → r'.pos1 = a + 1 → r' = row := by
+  intro ta tc row
+  have hev : mkEvent i.positions (tvOfTrio i.tv k) i.recomb a c ∈
+      findRecombination (tvOfTrio i.tv k) i.comps i.positions i.recomb := by
+    unfold findRecombination
+    rw [mem_sortEv, List.mem_flatMap]
+    exact ⟨b, hb, scanBlock_complete pre _ a c suf hbl hne⟩
+  have hrow : row ∈ trioRows i k child := List.mem_map.mpr ⟨_, hev, rfl⟩
+  have hzip : (child, k) ∈ i.children.zipIdx := by
+    rw [List.mk_mem_zipIdx_iff_getElem?]; simpa using hc
+  obtain ⟨heq, hs⟩ := recomb_rows_sorted i hk
+  refine ⟨?_, ?_, ?_⟩
+  · rw [heq, List.mem_flatMap]; exact ⟨(child, k), hzip, hrow⟩
+  · have h1 := atPos_tvOfTrio_lt i.positions i.tv k a
+    have h2 := atPos_tvOfTrio_lt i.positions i.tv k c
+    show ta % 2 ≠ tc % 2 ∨ ta / 2 ≠ tc / 2
+    have : ta ≠ tc := hne
+    omega
+  · intro r' hr' hch hp
+    rw [heq, List.mem_flatMap] at hr'
+    obtain ⟨⟨c', k'⟩, hz', hr'⟩ := hr'
+    have hc' : r'.child = c' := (hs k' c').2 r' hr'
+    have hk' : i.children[k']? = some c' := by
+      have := List.mk_mem_zipIdx_iff_getElem?.mp hz'; simpa using this
+    have hkk : k' = k := by
+      have hlt : k' < i.children.length := by
+        rcases Nat.lt_or_ge k' i.children.length with h | h
+        · exact h
+        · rw [List.getElem?_eq_none h] at hk'; cases hk'
+      exact (List.getElem?_inj hlt hnd).mp (by rw [hk', hc, ← hc', hch])
+    subst hkk
+    have hcc : c' = child := by rw [← hc', hch]
+    subst hcc
+    exact pairwise_lt_unique (fun r : RecRow => r.pos1) _ (hs k' c').1 r' hr' row hrow hp
+
+example : (exInst.comps.map (·.1)).Nodup ∧ exInst.children[0]? = some "child" ∧ 10 ∈ blockIds exInst.comps ∧
+    (blockOf exInst.comps 10).tail = [20] ++ 30 :: 40 :: [] ∧
+    atPos exInst.positions (tvOfTrio exInst.tv 0) 30 ≠ atPos exInst.positions (tvOfTrio exInst.tv 0) 40 := by decide
+
+/-- **reports_agree_with_vcf**: one statement across the three files.  (read list) For a row of the read list of a
+(chromosome, family) — looked up through the per-chromosome dict —, the target of the row's sample carrying the family's
+components, and any record of that chromosome written by `PhasedVcfWriter.write` at the read's first variant: whatever
+phase statement a reader decodes from that sample's call names the phase set of the row.  (changed genotypes) Every
+written record stems from an input record, and each of its change rows names a target sample whose genotype differs
+between that input record and the written one exactly as listed. -/
+theorem reports_agree_with_vcf (cfg : Cfg) (hr : cfg.repaired = true) (hm : cfg.mav = false)
+    (hnd : (cfg.targets.map (·.name)).Nodup) (rs : List Record)
+    (hwf : ∀ r ∈ rs, ∀ nc ∈ r.calls, WhVerif.C09.WfCall r.format nc.2) (prev : Option Nat) :
+    (∀ (sc : SampleComps) (f : FamRun), f.ReadsOfMembers →
+      ∀ row ∈ readListRowsS (scAssign sc f.members f.inst.comps) f.inst,
+      ∀ t ∈ cfg.targets, t.name = row.sample → t.comps = f.inst.comps →
+      ∀ o ∈ writeChrom cfg prev rs, o.record.pos + 1 = row.first →
+      ∀ call ph, clookup o.record.calls t.name = some call → WhVerif.C03.decodeCall o.record.format call = some ph →
+        ph.block = some (row.phaseSet : Int)) ∧
+    (∀ o ∈ writeChrom cfg prev rs, ∃ r ∈ rs, ∃ prev', o = writeRecord cfg prev' r ∧
+      ∀ row ∈ o.changes, ∃ t ∈ cfg.targets, ∃ c c', row.sample = t.name ∧ row.pos = r.pos ∧
+        clookup r.calls t.name = some c ∧ clookup o.record.calls t.name = some c' ∧
+        row.oldGt = gcode c.gt ∧ row.newGt = gcode c'.gt ∧ gcode c.gt ≠ gcode c'.gt) := by
+  constructor
+  · intro sc f hf row hrow t ht _ htc o ho hpos call ph hcall hdec
+    rw [readlist_uses_own_family_components sc f hf] at hrow
+    obtain ⟨_, _, p, _, _, _, _, _, _, hal, h1, hfirst, _⟩ := readlist_rows_sound f.inst row hrow
+    obtain ⟨comp, _, hcomp, _, hph, _⟩ :=
+      WhVerif.C03.Pipe.decode_chrom cfg hr hm hnd rs hwf prev t ht o ho call hcall ph hdec
+    have hpp : o.record.pos = p := by omega
+    rw [htc, hpp] at hcomp
+    unfold WhVerif.C03.compOf at hcomp
+    rw [← WhVerif.C03.Pipe.alookup_eq_lookup, hal] at hcomp
+    cases hcomp
+    rw [hph]
+    simp only [Option.some.injEq]
+    omega
+  · intro o ho
+    obtain ⟨prev', r, hrmem, rfl⟩ := WhVerif.C09.mem_writeChrom cfg rs prev o ho
+    refine ⟨r, hrmem, prev', rfl, fun row hrow => ?_⟩
+    obtain ⟨t, ht, c, c', h1, h2, _, _, h5, h6, h7, h8, h9⟩ := (gtchange_rows_eq_diff cfg prev' r hnd).1 row hrow
+    exact ⟨t, ht, c, c', h1, h2, h5, h6, h7, h8, h9⟩
+
 
 end WhVerif.Props.C20
